@@ -68,6 +68,9 @@ inductive Obj where
   | method (w : Nat) (n : NameP) (flags : Nat) (body : List Stmt)
   | region (n : NameP) (space : Nat) (off len : Term)
   | field (w : Nat) (region : NameP) (flags : Nat) (units : List FieldU)
+  | indexField (w : Nat) (idx dat : NameP) (flags : Nat) (units : List FieldU)
+  /-- BankField(region, bank, value, flags){units}; `value` is an integer term -/
+  | bankField (w : Nat) (region bank : NameP) (value : Term) (flags : Nat) (units : List FieldU)
   | mutex (n : NameP) (sync : Nat)
   | event (n : NameP)
   | processor (w : Nat) (n : NameP) (id addr len : Nat) (body : List Obj)
@@ -147,6 +150,10 @@ def encObj : Obj → List UInt8
   | .method w n flags body => encPkg [0x14] w (encNameP n ++ [UInt8.ofNat flags] ++ encStmts body)
   | .region n space off len => [0x5b, 0x80] ++ encNameP n ++ [UInt8.ofNat space] ++ encTerm off ++ encTerm len
   | .field w region flags units => encPkg [0x5b, 0x81] w (encNameP region ++ [UInt8.ofNat flags] ++ (units.map encFieldU).flatten)
+  | .indexField w idx dat flags units =>
+    encPkg [0x5b, 0x86] w (encNameP idx ++ encNameP dat ++ [UInt8.ofNat flags] ++ (units.map encFieldU).flatten)
+  | .bankField w region bank value flags units =>
+    encPkg [0x5b, 0x87] w (encNameP region ++ encNameP bank ++ encTerm value ++ [UInt8.ofNat flags] ++ (units.map encFieldU).flatten)
   | .mutex n sync => [0x5b, 0x01] ++ encNameP n ++ [UInt8.ofNat sync]
   | .event n => [0x5b, 0x02] ++ encNameP n
   | .processor w n id addr len body =>
@@ -171,17 +178,14 @@ abbrev Path := List String
 sites (target path, number of arguments) -/
 structure Namespace where
   objs : List (Path × String) := []
+  /-- declared methods: path ↦ declared argument count (bits 0–2 of the flags) -/
+  methods : List (Path × Nat) := []
   calls : List (Path × Nat) := []
   /-- declarations that ACPI's rules reject (target scope missing, `^` above the root) -/
   errors : List String := []
   deriving Repr, Inhabited
 
 def Namespace.has (ns : Namespace) (p : Path) : Bool := ns.objs.any (·.1 == p)
-
-def Namespace.kind (ns : Namespace) (p : Path) : String :=
-  match ns.objs.find? (·.1 == p) with
-  | some (_, d) => (d.splitOn ":").headD ""
-  | none => ""
 
 /-- absolute path of a declaration `n` made in scope `scope` -/
 def declPath (scope : Path) (n : NameP) : Option Path :=
@@ -290,6 +294,7 @@ def declObj (scope : Path) : Obj → NsSt → NsSt
     match declPath scope n with
     | some p =>
       let st := st.add p s!"method:{flags % 256}"
+      let st := { st with ns := { st.ns with methods := st.ns.methods ++ [(p, flags % 8)] } }
       { st with pending := st.pending ++ (stmtsCalls body).map fun (nm, k) => (p, nm, k) }
     | none => st.err "caret-above-root"
   | .region n space off len, st =>
@@ -297,6 +302,10 @@ def declObj (scope : Path) : Obj → NsSt → NsSt
     | some p => st.add p s!"region:{space % 256}:{termDesc off}:{termDesc len}"
     | none => st.err "caret-above-root"
   | .field _ _ flags units, st =>
+    declUnits scope units 0 (flags % 16) (flags / 16 % 2) (flags / 32 % 4) st
+  | .indexField _ _ _ flags units, st =>
+    declUnits scope units 0 (flags % 16) (flags / 16 % 2) (flags / 32 % 4) st
+  | .bankField _ _ _ _ flags units, st =>
     declUnits scope units 0 (flags % 16) (flags / 16 % 2) (flags / 32 % 4) st
   | .mutex n sync, st =>
     match declPath scope n with
@@ -331,15 +340,11 @@ def resolveCalls (st : NsSt) : NsSt :=
   let st' := st.pending.foldl (fun (acc : NsSt) (scope, nm, k) =>
     match resolveRef acc.ns scope nm with
     | some p =>
-      match acc.ns.objs.find? (·.1 == p) with
-      | some (_, d) =>
-        match d.splitOn ":" with
-        | ["method", fl] =>
-          let argc := fl.toNat?.getD 0 % 8
-          let acc := if argc ≠ k then acc.err "generator-arity" else acc
-          { acc with ns := { acc.ns with calls := acc.ns.calls ++ [(p, argc)] } }
-        | _ => acc.err "call-target-not-method"
-      | none => acc.err "call-unresolved"
+      match acc.ns.methods.find? (·.1 == p) with
+      | some (_, argc) =>
+        let acc := if argc ≠ k then acc.err "generator-arity" else acc
+        { acc with ns := { acc.ns with calls := acc.ns.calls ++ [(p, argc)] } }
+      | none => acc.err "call-target-not-method"
     | none => acc.err "call-unresolved") st
   { st' with pending := [] }
 
@@ -369,6 +374,16 @@ def kidsOf (i : Nat) : List Nat :=
   | .ok l => l
   | .error _ => []
 
+/-- decimal value of an integer object, `?` if it is none -/
+def natOf (i : Nat) : String :=
+  match t.pool[i]? with
+  | none => "?"
+  | some o =>
+    if o.opcode = 0x00 then "0" else if o.opcode = 0x01 then "1" else if o.opcode = 0xff then "18446744073709551615"
+    else match o.value with
+      | .u64 v => toString v
+      | _ => "?"
+
 def intOf (i : Nat) : String :=
   match t.pool[i]? with
   | none => "?"
@@ -388,11 +403,11 @@ def treeDataDesc : Nat → Nat → String
       if o.opcode = 0x0d then s!"s{valHex tables o}"
       else if o.opcode = 0x11 then
         match kidsOf t i with
-        | [sz, bl] => s!"b{(intOf t sz).drop 1}:{valHex tables (t.pool[bl]?.getD ({} : AmlTree.Obj))}"
+        | [sz, bl] => s!"b{natOf t sz}:{valHex tables (t.pool[bl]?.getD ({} : AmlTree.Obj))}"
         | _ => "b?"
       else if o.opcode = 0x12 then
         match kidsOf t i with
-        | [cnt, sb] => s!"p{(intOf t cnt).drop 1}[{",".intercalate ((kidsOf t sb).map (treeDataDesc f))}]"
+        | [cnt, sb] => s!"p{natOf t cnt}[{",".intercalate ((kidsOf t sb).map (treeDataDesc f))}]"
         | _ => "p?"
       else intOf t i
 
